@@ -31,6 +31,7 @@ type TLCOpts struct {
 	Files    map[string][]byte // extra files placed next to the spec (e.g. trace.ndjson)
 	Consts   map[string]string // textual overrides: "Name" -> "value" replaces `Name = ...` lines in cfg
 	Coverage bool
+	Gen      bool // generator use of a checking config: drop its VIEW, add CONSTRAINT EmitBeh
 	// OnBeh is called (from one goroutine) for every "@@BEH <json>" line.
 	OnBeh func(raw json.RawMessage)
 	// ExpectViolation: a spec-level mutant config; TLC must report a violation.
@@ -114,6 +115,12 @@ func RunTLC(o TLCOpts) (*TLCResult, error) {
 			return nil, fmt.Errorf("cfg %s has no constant %s to override", o.Cfg, k)
 		}
 		cfgs = re.ReplaceAllString(cfgs, "${1}"+k+" = "+v)
+	}
+	if o.Gen {
+		cfgs = regexp.MustCompile(`(?m)^VIEW .*$`).ReplaceAllString(cfgs, "")
+		if !strings.Contains(cfgs, "EmitBeh") {
+			cfgs += "\nCONSTRAINT EmitBeh\n"
+		}
 	}
 	os.WriteFile(filepath.Join(dir, "run.cfg"), []byte(cfgs), 0o644)
 	for n, b := range o.Files {
